@@ -246,7 +246,7 @@ theorem c20_json_tree_roundtrip_ProtocolVersion (a b c : Nat) (ha : a < 256) (hb
     ∧ versionOfTree (.arr [ofNat a, ofNat b, ofNat c]) = some (a, b, c) := by
   constructor
   · simp [versionOfTree, versionToTree, c20_version_roundtrip a b c ha hb hc]
-  · simp only [versionOfTree, toNatBits_ofNat 8 a (by omega), toNatBits_ofNat 8 b (by omega), toNatBits_ofNat 8 c (by omega)]
+  · simp [versionOfTree, toNatBits_ofNat 8 a (by omega), toNatBits_ofNat 8 b (by omega), toNatBits_ofNat 8 c (by omega)]
 
 theorem spOfTree_obj (fs : List (Txt × Json)) : spOfTree (.obj fs) =
     match fieldOr fs (key! "parentID") (List.replicate 32 0) (toHex 32),
@@ -376,7 +376,10 @@ theorem ucOfTree_obj (fs : List (Txt × Json)) : ucOfTree (.obj fs) = ucOfFields
 
 theorem policyOfTree_obj (f : Nat) (fs : List (Txt × Json)) : policyOfTree Hh (f + 1) (.obj fs) =
     match getF (key! "type") fs with
-    | some (.str typ) => policyBody Hh (policyListOfTree Hh f) typ ((getF (key! "policy") fs).getD .null)
+    | some (.str typ) =>
+      match getF (key! "policy") fs with
+      | some body => policyBody Hh (policyListOfTree Hh f) typ body
+      | none => none
     | _ => none := by
   rfl
 
@@ -386,8 +389,8 @@ theorem policyOfTree_two (f : Nat) (typ : Txt) (body : Json) :
   rw [policyOfTree_obj]
   have h1 : getF (key! "type") [(key! "type", Json.str typ), (key! "policy", body)] = some (.str typ) := by simp [getF]
   have h2 : getF (key! "policy") [(key! "type", Json.str typ), (key! "policy", body)] = some body := by simp [getF]
-  rw [h1, h2]
-  rfl
+  rw [h1]
+  simp only [h2]
 
 theorem pk_prefix_eq : Gen.FactsText.pkPrefixBytes = Gen.FactsText.pkAlgBytes ++ [58] := by decide
 
@@ -398,26 +401,30 @@ mutual
       obtain ⟨f', rfl⟩ : ∃ k, f = k + 1 := ⟨f - 1, by simp [Policy.size] at hf; omega⟩
       simp only [policyToTree]
       rw [policyOfTree_two]
-      simp [policyBody, toNatBits_ofNat 64 h hwf]
+      unfold policyBody
+      simp [toNatBits_ofNat 64 h hwf]
     | .after t, f, hwf, hf => by
       obtain ⟨f', rfl⟩ : ∃ k, f = k + 1 := ⟨f - 1, by simp [Policy.size] at hf; omega⟩
       simp only [policyToTree]
       rw [policyOfTree_two]
-      simp only [policyBody, kw_ne.1, if_false, if_true]
+      unfold policyBody
+      simp only [kw_ne.1, if_false, if_true]
       have : -(2 ^ 63 : Int) ≤ t ∧ t < 2 ^ 63 := hwf
       rw [if_pos this]
     | .pk k, f, hwf, hf => by
       obtain ⟨f', rfl⟩ : ∃ k, f = k + 1 := ⟨f - 1, by simp [Policy.size] at hf; omega⟩
       simp only [policyToTree]
       rw [policyOfTree_two]
-      simp only [policyBody, kw_ne.2.1, kw_ne.2.2.1, if_false, if_true]
+      unfold policyBody
+      simp only [kw_ne.2.1, kw_ne.2.2.1, if_false, if_true]
       rw [pk_prefix_eq, (c20_pk_prefix Gen.FactsText.pkAlgBytes 32 alg_no_colon).1 k hwf]
       rfl
     | .hash k, f, hwf, hf => by
       obtain ⟨f', rfl⟩ : ∃ k, f = k + 1 := ⟨f - 1, by simp [Policy.size] at hf; omega⟩
       simp only [policyToTree]
       rw [policyOfTree_two]
-      simp only [policyBody, kw_ne.2.2.2.1, kw_ne.2.2.2.2.1, kw_ne.2.2.2.2.2.1, if_false, if_true,
+      unfold policyBody
+      simp only [kw_ne.2.2.2.1, kw_ne.2.2.2.2.1, kw_ne.2.2.2.2.2.1, if_false, if_true,
         toHex_ofHex 32 k hwf]
       rfl
     | .opaque a, f, hwf, hf => by
@@ -425,7 +432,8 @@ mutual
       have n := kw_ne.2.2.2.2.2.2.2.2.2.2
       simp only [policyToTree]
       rw [policyOfTree_two]
-      simp only [policyBody, n.1, n.2.1, n.2.2.1, n.2.2.2.1, n.2.2.2.2.1, if_false, if_true,
+      unfold policyBody
+      simp only [n.1, n.2.1, n.2.2.1, n.2.2.2.1, n.2.2.2.2.1, if_false, if_true,
         c20_address_roundtrip Hh 32 6 hH a hwf]
       rfl
     | .uc tl ks sg, f, hwf, hf => by
@@ -433,7 +441,8 @@ mutual
       have n := kw_ne.2.2.2.2.2.2.2.2.2.2.2.2.2.2.2
       simp only [policyToTree]
       rw [policyOfTree_two]
-      simp only [policyBody, n.1, n.2.1, n.2.2.1, n.2.2.2.1, n.2.2.2.2.1, n.2.2.2.2.2, if_false, if_true,
+      unfold policyBody
+      simp only [n.1, n.2.1, n.2.2.1, n.2.2.2.1, n.2.2.2.2.1, n.2.2.2.2.2, if_false, if_true,
         ucOfFields_ucFields hi tl sg ks hwf.1 hwf.2.1 hwf.2.2]
       rfl
     | .thresh n ps, f, hwf, hf => by
@@ -441,7 +450,8 @@ mutual
       have hn := kw_ne.2.2.2.2.2.2
       simp only [policyToTree]
       rw [policyOfTree_two]
-      simp only [policyBody, hn.1, hn.2.1, hn.2.2.1, hn.2.2.2.1, if_false, if_true]
+      unfold policyBody
+      simp only [hn.1, hn.2.1, hn.2.2.1, hn.2.2.2.1, if_false, if_true]
       rw [fieldOr_hit _ (key! "n") _ _ (ofNat n) (by simp [getF]) (by simp [ofNat]), toNatBits_ofNat 8 n hwf.1]
       match ps, hwf.2, hf with
       | .nil, _, _ =>
@@ -603,13 +613,18 @@ variable (Hh : List UInt8 → List UInt8) (hi : Nat → Bool)
 theorem satisfiedOfTree_obj (fuel : Nat) (fs : List (Txt × Json)) : satisfiedOfTree Hh fuel (.obj fs) =
     match (getF (key! "policy") fs).bind (policyOfTree Hh fuel),
           fieldOr fs (key! "signatures") [] (fun j => (toSlice (toHex 64) j).map (·.getD [])),
-          fieldOr fs (key! "preimages") [] (fun j => (toSlice (toHex 32) j).map (·.getD [])) with
+          fieldOr fs (key! "preimages") [] (fun j => (toSlice (toHexStrict 32) j).map (·.getD [])) with
     | some p, some sigs, some pre => some ⟨p, sigs, pre⟩
     | _, _, _ => none := rfl
 
 theorem hexList (n : Nat) (l : List (List UInt8)) (h : ∀ x ∈ l, x.length = n) :
     Option.map (fun x => x.getD []) (toSlice (toHex n) (Json.arr (l.map ofHex))) = some l := by
   rw [toSlice, decList_map ofHex (toHex n) l (fun a ha => toHex_ofHex n a (h a ha))]
+  rfl
+
+theorem hexListStrict (n : Nat) (l : List (List UInt8)) (h : ∀ x ∈ l, x.length = n) :
+    Option.map (fun x => x.getD []) (toSlice (toHexStrict n) (Json.arr (l.map ofHex))) = some l := by
+  rw [toSlice, decList_map ofHex (toHexStrict n) l (fun a ha => toHex_ofHex n a (h a ha))]
   rfl
 
 /-- `types.SatisfiedPolicy`: preimages as hex strings; empty signature / preimage lists are
@@ -638,7 +653,7 @@ theorem c20_json_tree_roundtrip_SatisfiedPolicy (hH : ∀ x, 6 ≤ (Hh x).length
         fieldOr_hit _ (key! "preimages") _ _ (.arr ((q :: qs).map ofHex)) (by simp [getF]) (by simp)]
       have : getF (key! "policy") [(key! "policy", policyToTree Hh hi pol), (key! "preimages", .arr ((q :: qs).map ofHex))]
           = some (policyToTree Hh hi pol) := by simp [getF]
-      rw [this, Option.bind_some, hpol, hexList 32 _ hp]
+      rw [this, Option.bind_some, hpol, hexListStrict 32 _ hp]
   | cons g gs =>
     cases pre with
     | nil =>
@@ -660,7 +675,7 @@ theorem c20_json_tree_roundtrip_SatisfiedPolicy (hH : ∀ x, 6 ≤ (Hh x).length
         fieldOr_hit _ (key! "preimages") _ _ (.arr ((q :: qs).map ofHex)) (by simp [getF]) (by simp)]
       have : getF (key! "policy") [(key! "policy", policyToTree Hh hi pol), (key! "signatures", .arr ((g :: gs).map ofHex)),
           (key! "preimages", .arr ((q :: qs).map ofHex))] = some (policyToTree Hh hi pol) := by simp [getF]
-      rw [this, Option.bind_some, hpol, hexList 64 _ hs, hexList 32 _ hp]
+      rw [this, Option.bind_some, hpol, hexList 64 _ hs, hexListStrict 32 _ hp]
 
 end
 
